@@ -330,6 +330,11 @@ pub struct JunitCase {
     pub failure_text: String,
 }
 
+/// XML 1.0 Char production: #x9 | #xA | #xD | [#x20-#xD7FF] | [#xE000-#xFFFD] | [#x10000-#x10FFFF]
+pub fn not_xml_char(c: char) -> bool {
+    matches!(c, '\u{0}'..='\u{8}' | '\u{b}' | '\u{c}' | '\u{e}'..='\u{1f}' | '\u{fffe}' | '\u{ffff}')
+}
+
 pub fn parse_junit(text: &str) -> Result<Vec<JunitCase>, String> {
     use quick_xml::events::Event;
     let mut rd = quick_xml::Reader::from_str(text);
@@ -352,11 +357,14 @@ pub fn parse_junit(text: &str) -> Result<Vec<JunitCase>, String> {
                 for a in e.attributes() {
                     match a {
                         Err(x) => return Err(format!("XML error in an attribute of <{}>: {}", name, x)),
-                        Ok(a) => {
-                            if let Err(x) = a.unescape_value() {
-                                return Err(format!("XML error in an attribute value of <{}>: {}", name, x));
+                        Ok(a) => match a.unescape_value() {
+                            Err(x) => return Err(format!("XML error in an attribute value of <{}>: {}", name, x)),
+                            Ok(v) => {
+                                if v.chars().any(not_xml_char) {
+                                    return Err(format!("a character that XML 1.0 cannot hold in an attribute value of <{}>: {:?}", name, v));
+                                }
                             }
-                        }
+                        },
                     }
                 }
                 match name.as_str() {
@@ -404,6 +412,9 @@ pub fn parse_junit(text: &str) -> Result<Vec<JunitCase>, String> {
             Ok(Event::Text(t)) => match t.unescape() {
                 Err(e) => return Err(format!("XML error in character data: {}", e)),
                 Ok(txt) => {
+                    if txt.chars().any(not_xml_char) {
+                        return Err(format!("a character that XML 1.0 cannot hold in character data: {:?}", txt.chars().take(60).collect::<String>()));
+                    }
                     if in_failure {
                         if let Some(c) = cur.as_mut() {
                             c.failure_text.push_str(&txt);
